@@ -103,6 +103,70 @@ def all_dags_rules(rep, prog):
               "the no-undirected-edge case does not return [pdag.copy()]")
 
 
+def orientation_rules(rep, prog):
+    """structure of the enumeration in all_dags: the loop runs over the cartesian product of one {True, False} choice
+    per undirected edge, and a choice orients its edge one way or the other - never both, never neither"""
+    q = U + "all_dags"
+    f = need(prog, q)
+    S = Sym(prog)
+    run_function(S, f)
+    loops = [(k, v) for k, v in S.loopinfo.items() if v["func"] == q and v["iter"] is not None]
+    if len(loops) != 1:
+        rep.unk("ORIENTATIONS.product", fwhere(f), "all_dags no longer enumerates orientations in one loop; the rule does not read this idiom")
+        return
+    lid, li = loops[0]
+    it = li["iter"]
+    ue = None
+    ok = False
+    FULL = ("slice", ("const", None), ("const", None), ("const", None))
+    if it[0] == "call" and it[1] == U + "cartesian":
+        arrs = dict(it[3]).get("arrays")
+        two = ("ext", "numpy.array", (("list", (("const", True), ("const", False))),), ())
+        two2 = ("ext", "numpy.array", (("list", (("const", False), ("const", True))),), ())
+        if arrs is not None and arrs[0] == "binop" and arrs[1] == "*" and arrs[2] in (("list", (two,)), ("list", (two2,))) and \
+                arrs[3][0] == "ext" and arrs[3][1] == "len":
+            ue = arrs[3][2][0]
+            ok = dict(it[3]).get("dtype") == ("extref", "bool")
+    rep.check("ORIENTATIONS.product", ok, fwhere(f, li["node"]), "one combination per element of {True, False}^u, u = number of undirected edges",
+              "the loop does not run over the product of one boolean choice per undirected edge: %s" % fmt(it)[:100])
+    if not ok:
+        return
+    flip = ("elem", it)
+    sts = [s_ for s_ in S.select("store", qname=q) if lid in s_.loops]
+    per_edge = [s_ for s_ in sts if s_.idx[0] == "tuple" and len(s_.idx[1]) == 2 and s_.idx[1][1] == FULL]
+    clear = [s_ for s_ in sts if s_ not in per_edge]
+    nots = [("cmp", "==", flip, ("const", False)), ("unop", "~", flip), ("ext", "numpy.logical_not", (flip,), ()), ("unop", "not", flip)]
+
+    def cols(t):
+        # ue[:, [a, b]][mask]  ->  ((a, b), mask)   ;  ue[mask] -> ((0, 1), mask)
+        if t[0] == "sub" and t[1][0] == "sub" and t[1][1] == ue and t[1][2][0] == "tuple" and t[1][2][1][0] == FULL and t[1][2][1][1][0] == "list":
+            c = tuple(x[1] for x in t[1][2][1][1][1] if is_const(x))
+            return c, t[2]
+        if t[0] == "sub" and t[1] == ue:
+            return (0, 1), t[2]
+        return None, None
+    seen = {}
+    good = len(per_edge) == 2
+    for s_ in per_edge:
+        m = s_.idx[1][0]
+        c, m2 = cols(s_.value)
+        if c is None or m2 != m or s_.aug is not None:
+            good = False
+            continue
+        seen["flip" if m == flip else "keep" if m in nots else "?"] = c
+    good = good and set(seen) == {"flip", "keep"} and {seen["flip"], seen["keep"]} == {(0, 1), (1, 0)}
+    rep.check("ORIENTATIONS.both-ways", good, fwhere(f, li["node"]), "a True choice stores the edge as (j, i), a False choice as (i, j): complementary masks, swapped columns",
+              "the two per-edge assignments are not `flipped -> one orientation, not flipped -> the other`: %s" % seen)
+    okc = False
+    if len(clear) == 1 and clear[0].idx[0] == "tuple" and len(clear[0].idx[1]) == 2:
+        a, b = clear[0].idx[1]
+        def col(t):
+            return t[2][1][1][1] if t[0] == "sub" and t[2][0] == "tuple" and t[2][1][0] == FULL and is_const(t[2][1][1]) else None
+        okc = {col(a), col(b)} == {0, 1} and a[1] == b[1] and is_const(clear[0].value, 0) and clear[0].base == ("method", ("param", "pdag"), "copy", (), ())
+    rep.check("ORIENTATIONS.clear", okc, fwhere(f, clear[0].node if clear else None), "for each oriented pair exactly one of the two entries of the undirected edge is cleared",
+              "the candidate is not obtained by clearing one entry per undirected edge")
+
+
 def dispatch_rules(rep, prog):
     q = U + "mec"
     f = need(prog, q)
@@ -177,6 +241,7 @@ def run(prog, rep, tier):
         dag_gate(rep, prog, q, p, rule="GATE")
     member_rules(rep, prog)
     all_dags_rules(rep, prog)
+    orientation_rules(rep, prog)
     dispatch_rules(rep, prog)
     chain_rules(rep, prog)
     rep.require_count("PAT.entry", 2)
